@@ -341,6 +341,15 @@ impl Vm {
             }
         };
 
+        // (define ((f a) b) ..) or (define (1.5 x) ..): what is being defined must be a variable
+        if !symbol.is_symbol() {
+            return Err(InvalidArgs(
+                "define".into(),
+                "symbol or (variable formals)".into(),
+                symbol.to_string(),
+            ));
+        }
+
         if symbol.is_primitive_symbol() {
             return Err(InvalidUsePrimitive(symbol.to_string()));
         }
